@@ -110,7 +110,7 @@ where
                 out.day = Some(v as u32);
                 Ok(())
             }),
-            "min" => numeric_match(tok.as_ref(), "min", 2, 0..=60).and_then(|v| {
+            "min" => numeric_match(tok.as_ref(), "min", 2, 0..=59).and_then(|v| {
                 out.minute = Some(v as u32);
                 Ok(())
             }),
@@ -222,7 +222,7 @@ where
                 Some(DateToken::Number(ref s, Some(ref f))) if s.len() == 2 && f.len() <= 9 => {
                     let secs = u32::from_str_radix(&**s, 10);
                     let nsecs = u32::from_str_radix(&**f, 10);
-                    if let (Ok(secs), Ok(nsecs)) = (secs, nsecs) {
+                    if let (Ok(secs @ 0..=60), Ok(nsecs)) = (secs, nsecs) {
                         let nsecs = nsecs * 10u32.pow(9 - f.len() as u32);
                         out.second = Some(secs);
                         out.nanosecond = Some(nsecs);
@@ -398,9 +398,14 @@ fn attempt(
             _ => Err(("Failed to construct a useful datetime".to_string(), count)),
         }
     } else {
-        let offset = parsed
-            .to_fixed_offset()
-            .unwrap_or_else(|_| FixedOffset::east_opt(0).unwrap());
+        let offset = match parsed.offset {
+            // Only a missing offset means UTC. One that was written
+            // but is out of range is an error.
+            Some(_) => parsed
+                .to_fixed_offset()
+                .map_err(|_| ("Offset is out of range".to_string(), count))?,
+            None => FixedOffset::east_opt(0).unwrap(),
+        };
         match (time, date) {
             (Ok(time), Ok(date)) => offset
                 .from_local_datetime(&date.and_time(time))
